@@ -11,7 +11,7 @@ import Octo.Model.Join
         `=` call with one side using only variables of `a` and the other only variables of `b` — anything else is the
         typecheck panic "outer join predicate must be a conjunction of equalities" / "… must each reference only one
         of the input tables" (`outerKeys` returns `none`),
-      - `(SELECT * FROM a WHERE w) x` → `Filter(w, a)` (the Requalifier only renames);
+      - `(SELECT * FROM a WHERE w) x` → `Filter(w, a)`, `(SELECT e… FROM a) x` → `Map(e…, a)` (the Requalifier only renames);
   * `optimizer/*.go`: the rules that move predicates — `PushDownFilterPredicatesIntoLookupJoinBranch` (`ruleLookup`),
     `PushDownFilterPredicatesIntoStreamJoinBranch` (`ruleBranch`), `PushDownFilterPredicatesIntoStreamJoinKey` (`ruleKey`),
     `MergeFilters` (`ruleMerge`), applied bottom-up by `Transformers.TransformNode` (`transform`) in the order of
@@ -44,6 +44,7 @@ inductive JKind where
 inductive From where
   | tbl (i : Nat)
   | sub (src : From) (whr : SExpr)
+  | proj (src : From) (es : List SExpr)
   | join (k : JKind) (l r : From) (on : SExpr)
   deriving Repr, Inhabited
 
@@ -73,6 +74,7 @@ def tableWidth (db : Db) (i : Nat) : Nat :=
 def From.width (db : Db) : From → Nat
   | .tbl i => tableWidth db i
   | .sub s _ => s.width db
+  | .proj _ es => es.length
   | .join _ l r _ => l.width db + r.width db
 
 /-! ### expressions: variables used, conjunctions, re-indexing -/
@@ -163,6 +165,7 @@ def outerKeys (c wl wr : Nat) : List SExpr → Option (List SExpr × List SExpr)
 def planOf (db : Db) : From → Nat → Option Plan
   | .tbl i, _ => some (.scan i)
   | .sub s w, c => (planOf db s c).map fun p => .filter w p
+  | .proj s es, c => (planOf db s c).map fun p => .map es p
   | .join k l r on, c =>
     match k with
     | .inner =>
